@@ -183,9 +183,9 @@ class Client:
         via_factory = spec.get('via_factory', False)
         treg = trans_fs.transition_function_registry
         comps = [self._tproxy(n, trans_fs.factory(n) if via_factory else treg[n]) for n in spec['chain']]
-        if spec.get('nest'):
-            # a chain inside the chain (chain is itself a registered transition function)
-            i, j = spec['nest']
+        # chains inside the chain (chain is itself a registered transition function); groups are disjoint ranges
+        groups = sorted([g for g in (spec.get('nest'), spec.get('nest2')) if g], reverse=True)
+        for (i, j) in groups:
             inner = comps[i:j]
             if inner:
                 nested = (trans_fs.factory('chain', transition_functions=inner) if via_factory
@@ -384,6 +384,8 @@ class Sim:
                 ctx.probe('knob:components_through_factories')
         if record.get('alias_objects'):
             ctx.probe('knob:object_identity_aliasing')
+        if record.get('grid_from_shape'):
+            ctx.probe('knob:grid_built_with_from_shape')
         for m in monitors:
             m.sim = self
             if hasattr(m, 'on_start'):
